@@ -398,17 +398,17 @@ func c04Cell(progIdx uint64, k int) core.Cell {
 	return core.Cell{ID: fmt.Sprintf("C04/p%d/c%d", progIdx, k), Fn: name, Decls: b.String(), Tags: tags}
 }
 
-const c04Universe = 3000
+const c04Universe = 12000
 const c04Cells = 10
 
 func init() { checks["C04"] = checkC04 }
 
 func checkC04(r *core.Run) {
-	r.Rule = "universe = 3000 generated programs x 10 cells; a cell is a history of 12..25 steps drawn from 44 operation templates (array/struct assignment, passing, returning, ranging, capturing, boxing in interface{}; append with and without spare capacity, 2- and 3-index slicing of arrays, slices, pointers to arrays, copy, len/cap growth; map insert/delete/lookup/comma-ok, maps of structs; &x.f, &a[i], *p = v, p.f op= v; swaps and tuple assignments; composite literals) over a pool of 11 variables of nested composite types; the whole pool (pointers through their referents, len and cap of slices) is printed after every step; verdict per cell = equality of the step-by-step dumps with the gc binary"
+	r.Rule = "universe = 12000 generated programs x 10 cells; a cell is a history of 12..25 steps drawn from 44 operation templates (array/struct assignment, passing, returning, ranging, capturing, boxing in interface{}; append with and without spare capacity, 2- and 3-index slicing of arrays, slices, pointers to arrays, copy, len/cap growth; map insert/delete/lookup/comma-ok, maps of structs; &x.f, &a[i], *p = v, p.f op= v; swaps and tuple assignments; composite literals) over a pool of 11 variables of nested composite types; the whole pool (pointers through their referents, len and cap of slices) is printed after every step; verdict per cell = equality of the step-by-step dumps with the gc binary"
 	r.Assume = []string{"gc build of the same source is the reference"}
 	n := 60
 	if r.Thorough() {
-		n = 1500
+		n = 4000
 	}
 	if os.Getenv("VERIF_C04_ALL") != "" {
 		n = c04Universe
